@@ -16,6 +16,7 @@ def run(rep):
     u3(rep, w)
     import c10
     c10.v5(rep, w, 'U4')      # index arithmetic on program-chosen integers cannot overflow (-inf / isize::MIN boundary)
+    u5(rep, w)
 
 
 def u1(rep, w):
@@ -214,3 +215,79 @@ def all_paths_to(f, target, through):
             return False
         stack.extend(f.succs()[b])
     return True
+
+
+def u5(rep, w):
+    """ranges are handed out from a small cache: a hit must have exactly the requested bounds, compared at full width. (A slice
+    `s[a..b]` is evaluated from the range object, so a wrong hit turns an out-of-range slice into some earlier slice's result.)"""
+    r = rep.rule('U5', 'the range cache returns an entry only if its begin and its end both equal the requested bounds (plain isize comparisons)', floor=3)
+    f = w.require_fn('yarel::vm::Vm::build_range', 'C13')
+    clos = [g for g in w.fns.values() if g.kind == 'Closure' and g.parent == f.path]
+    finder = None
+    for g in clos:
+        if any(s.get('r', {}).get('rv') == 'bin' and s['r']['op'] == 'Eq' for b in g.blocks for s in b['s']):
+            finder = g
+    if finder is None:
+        # no closure compares anything: either the cache is gone (fine) or the lookup changed shape
+        has_cache = any('range_cache' in q for qs in origins(f).values() for q in qs)
+        if has_cache:
+            raise Broken('C13', 'anchor', 'build_range uses range_cache but no comparing closure was found')
+        r.ok('build_range has no cache')
+        return
+    org = origins(finder)
+    pairs = []
+    eq_blocks = {}
+    for bi, b in enumerate(finder.blocks):
+        for s in b['s']:
+            rr = s.get('r', {})
+            if rr.get('rv') == 'bin' and rr['op'] == 'Eq':
+                sides = []
+                for o in (rr['a'], rr['b']):
+                    pl = op_place(o)
+                    qs = org.get(pl['l'], set()) if pl else set()
+                    ty = finder.crate.tstr(pl.get('t', finder.local_ty(pl['l']))) if pl else '?'
+                    fld = {t for q in qs for t in q[1:] if t in ('begin', 'end')}
+                    cap = {q[2] for q in qs if q[0] == ('arg', 1) and len(q) >= 3 and '#bin' not in q}
+                    arith = any('#bin' in q for q in qs)
+                    sides.append((fld, cap, arith, ty))
+                fld = sides[0][0] | sides[1][0]
+                cap = sides[0][1] | sides[1][1]
+                pairs.append((tuple(sorted(fld)), tuple(sorted(cap)), any(x[2] for x in sides), {x[3] for x in sides}))
+                eq_blocks[tuple(sorted(fld))] = (bi, s['d']['l'])
+    # which requested bound does each capture hold? (captures are numbered in order of first use inside the closure)
+    forg = origins(f)
+    capmap = {}
+    for b in f.blocks:
+        for s_ in b['s']:
+            rr = s_.get('r', {})
+            if rr.get('rv') == 'agg' and rr.get('closure') == finder.path:
+                for i, o in enumerate(rr.get('ops', [])):
+                    pl = op_place(o)
+                    roots = {q[0] for q in forg.get(pl['l'], ())} if pl else set()
+                    capmap[str(i)] = {('arg', 2): 'begin', ('arg', 3): 'end'}.get(next(iter(roots)), '?') if len(roots) == 1 else '?'
+    plain = all((not a) and tys == {'isize'} for (_, _, a, tys) in pairs)
+    named = sorted((p_[0], tuple(capmap.get(c_, '?') for c_ in p_[1])) for p_ in pairs)
+    r.check(named == [(('begin',), ('begin',)), (('end',), ('end',))] and plain,
+            'the finder compares entry.begin with the requested begin and entry.end with the requested end, as isize', 'the cache lookup compares %s: a hit no longer implies that '
+            'both bounds are equal to the requested ones at full width' % [(p_[0], tuple(capmap.get(c_, '?') for c_ in p_[1]), 'derived' if p_[2] else 'plain', sorted(p_[3])) for p_ in pairs], finder.loc())
+    # result: false, or the second comparison under the first one's true edge; never an unconditional true
+    consts = [(op_const(s['r'].get('o', {}) or {}) or {}).get('v') for b in finder.blocks for s in b['s'] if s.get('d', {}).get('l') == 0 and not s['d'].get('p') and s['r'].get('rv') == 'use']
+    ok = 1 not in consts
+    if (('begin',) in eq_blocks) and (('end',) in eq_blocks):
+        b1, l1 = eq_blocks[('begin',)]
+        b2, l2 = eq_blocks[('end',)]
+        first, second = (b1, b2) if b1 <= b2 else (b2, b1)
+        t = finder.blocks[first]['t']
+        dom = finder.dominators()
+        ok = ok and t['t'] == 'switch' and t['else'] in dom.get(second, ()) and t['else'] != second or (ok and first == second)
+    else:
+        ok = False
+    r.check(ok, 'the finder answers true only when both comparisons hold', 'the finder can answer true without both bounds having compared equal', finder.loc())
+    # a miss creates the entry from the same two values
+    mk = [(bi, t) for bi, t in f.calls() if callee_name(t) == 'yarel::object::ObjRange::new']
+    built = False
+    for bi, t in mk:
+        a = [op_place(x) for x in t['args']]
+        if len(a) == 3 and a[1] and a[2]:
+            built = {q[0] for q in forg.get(a[1]['l'], ())} == {('arg', 2)} and {q[0] for q in forg.get(a[2]['l'], ())} == {('arg', 3)}
+    r.check(built, 'a miss creates ObjRange::new(class, begin, end)', 'the new cache entry is not built from the requested (begin, end) in that order', f.loc())
